@@ -247,7 +247,9 @@ class Abs(Evaluator):
             elif isinstance(st, ast.AugAssign) and isinstance(st.target, ast.Name):
                 cur = self.env.get(st.target.id)
                 val = self.ev(st.value)
-                if isinstance(st.op, ast.BitOr) and isinstance(cur, list):
+                if isinstance(st.op, ast.BitOr) and isinstance(cur, set):
+                    cur |= set(val)          # in place, like the real set
+                elif isinstance(st.op, ast.BitOr) and isinstance(cur, list):
                     self.env[st.target.id] = cur + [v for v in val if v not in cur]
                 elif isinstance(st.op, (ast.Add, ast.Sub)) and isinstance(cur, int) and isinstance(val, int):
                     self.env[st.target.id] = cur + val if isinstance(st.op, ast.Add) else cur - val
@@ -257,7 +259,9 @@ class Abs(Evaluator):
                 c = st.value
                 recv = self.ev(c.func.value)
                 args = [self.ev(a) for a in c.args]
-                if isinstance(recv, list) and c.func.attr in ('add', 'append') and len(args) == 1:
+                if isinstance(recv, set) and c.func.attr == 'add' and len(args) == 1:
+                    recv.add(args[0])
+                elif isinstance(recv, list) and c.func.attr in ('add', 'append') and len(args) == 1:
                     if c.func.attr == 'append' or args[0] not in recv:
                         recv.append(args[0])
                 elif c.func.attr in self.tolerant_calls:
@@ -1350,10 +1354,28 @@ def rule_optable(repo):
         groups = {}
         for opname, op in OPS:
             for sc in scen:
-                objs = [mk(k) for k in sc]
-                ev = Abs({p_wr: True, p_ff: ff, p_op: op, p_objs: objs, acc: []}, ancestors=anc, arith=True, closed=True)
+                objs_l = [mk(k) for k in sc]
+                objs = set(objs_l)
+                ev = Abs({p_wr: True, p_ff: ff, p_op: op, p_objs: objs, acc: set()}, ancestors=anc, arith=True, closed=True)
                 out = run_block(ev, L)
                 r.evaluations += 1
+                # the same written name after an EARLIER statement of the block already collected these signals
+                # (legal operator first, then this one) -- the verdict must not depend on the collected set
+                seq_msg = None
+                if sc and 'comp' not in sc:
+                    for extra in (0, 1):
+                        pre = set(objs) | ({mk('top')} if extra else set())
+                        ev2 = Abs({p_wr: True, p_ff: ff, p_op: op, p_objs: objs, acc: pre}, ancestors=anc, arith=True,
+                                  closed=True)
+                        out2 = run_block(ev2, L)
+                        r.evaluations += 1
+                        o1 = out[1] if out[0] == 'raise' else None
+                        o2 = out2[1] if out2[0] == 'raise' else None
+                        if o1 != o2:
+                            seq_msg = (f"{'update_ff' if ff else 'update'} block: `x {opname} ...` "
+                                       f"{'is accepted' if o2 is None else 'raises ' + str(o2)} when an earlier statement of the "
+                                       f"same block already wrote x, but {'is accepted' if o1 is None else 'raises ' + str(o1)} "
+                                       f"as the first write: the operator check depends on statement order")
                 if 'comp' in sc:
                     want = 'WriteNonSignalError'
                 elif not sc:
@@ -1364,7 +1386,7 @@ def rule_optable(repo):
                     want = ('UpdateFFBlockWriteError' if opname != '<<=' else
                             ('UpdateFFNonTopLevelSignalError' if 'sub' in sc else None))
                 got = out[1] if out[0] == 'raise' else None
-                msg = None
+                msg = seq_msg
                 if got != want:
                     msg = (f"{'update_ff' if ff else 'update'} block assigning {'+'.join(sc) or 'nothing'} with "
                            f"{opname}{' (' + op.tag + ')' if isinstance(op, Obj) else ''}: "
@@ -1372,7 +1394,7 @@ def rule_optable(repo):
                            f"{'accepted' if want is None else want}")
                 elif want is None and sc:
                     coll = ev.env.get(acc)
-                    if not isinstance(coll, list) or any(not any(o is c for c in coll) for o in objs):
+                    if not isinstance(coll, (list, set)) or any(not any(o is c for c in coll) for o in objs):
                         msg = "an accepted written signal is not added to the block's write set: later multi-writer checks miss it"
                     elif ff and any(not any(o is st_o and a == 'needs_double_buffer' and val is True
                                             for (st_o, a, val) in ev.stores) for o in [x.fields['_dsl'] for x in objs]):
@@ -1805,9 +1827,11 @@ def rule_const_host(repo):
 
 
 from rules.c02 import rule_funcfold   # noqa: E402  (a writer hidden in a nested helper must be attributed to the block: shared with C02)
+from rules.c02 import rule_cache_scope   # noqa: E402  (read/write sets judged by the checks must not be stale cache entries of another lambda body)
+from rules.c08 import rule_ancestors   # noqa: E402  (every signal ancestor of a written object is seeded as a writer: second drivers on a struct are seen)
 
 RULES = [rule_overlap, rule_slicekey, rule_pipeline, rule_mw_guard, rule_mw_cover, rule_porttable, rule_optable,
-         rule_nowriter, rule_loop, rule_raise_resolves, rule_const_host, rule_funcfold]
+         rule_nowriter, rule_loop, rule_raise_resolves, rule_const_host, rule_funcfold, rule_cache_scope, rule_ancestors]
 
 
 # ---------------------------------------------------------------------------
@@ -1872,8 +1896,9 @@ MUTANTS = [
     # --- R-C09-optable
     _m('update-accepts-lshift', L2, "            elif not isinstance( op, ast.MatMult ):", "            elif not isinstance( op, (ast.MatMult, ast.LShift) ):", 'R-C09-optable'),
     _m('ff-toplevel-inverted', L2, "              if not x.is_top_level_signal():", "              if x.is_top_level_signal():", 'R-C09-optable'),
-    _m('ff-no-double-buffer', L2, "              x._dsl.needs_double_buffer = True", "              pass", 'R-C09-optable'),
+    _m('ff-no-double-buffer', L2, "              x._dsl.needs_double_buffer = True\n\n          else: # update", "              pass\n\n          else: # update", 'R-C09-optable'),
     _m('write-checks-skipped', L2, "          if not is_write or not objs:", "          if is_write or not objs:", 'R-C09-optable'),
+    _m('write-checks-skipped-when-already-collected', L2, "          if not is_write or not objs:", "          if not is_write or not objs or objs <= all_objs:", 'R-C09-optable'),
     _m('callsite-is-write-dropped', L2, "update_ff = blk in s._dsl.update_ff, is_write=True )", "update_ff = blk in s._dsl.update_ff )", 'R-C09-optable'),
     _m('nonsignal-write-accepted', L2, "            if not isinstance( obj, Signal ):", "            if not isinstance( obj, NamedObject ):", 'R-C09-optable'),
     _m('block-kinds-swapped', L2, "          if update_ff:\n", "          if not update_ff:\n", 'R-C09-optable'),
